@@ -330,4 +330,28 @@ package utils
 //@   internal length_counts_characters [C12]: called(convertUint) ==> callarg(convertUint, 0, 0) == callres(Itoa, 0) && callarg(Itoa, 0, 0) == callres(RuneCountInString, 0) &&
 //@            callarg(RuneCountInString, 0, 0) == value && callarg(convertUint, 0, 1) == lst.Length
 //@   internal restricted_strings_are_measured [C12]: lst != nil && len(lst.Length) != 0 ==> called(convertUint)
+//@   ensures an_accepted_string_is_kept_verbatim [C12]: r1 == nil ==> r0 != nil && istype(r0.Value, *sdcpb.TypedValue_StringVal) &&
+//@            dyn(r0.Value, *sdcpb.TypedValue_StringVal) != nil && dyn(r0.Value, *sdcpb.TypedValue_StringVal).StringVal == value
 //@   loop 0 invariant true
+
+// C12: the text of a string-like leaf is the value: it reaches the string converter as it came in (numbers may be
+// read leniently, texts may not be touched)
+//@ func ConvertLeafRef
+//@   props C12 C20
+//@   internal the_text_is_the_value [C12]: callarg(ConvertString, 0, 0) == value && r0 == callres(ConvertString, 0, 0) && r1 == callres(ConvertString, 0, 1)
+//@ func ConvertBinary
+//@   props C12 C20
+//@   internal the_text_is_the_value [C12]: callarg(ConvertString, 0, 0) == value && r0 == callres(ConvertString, 0, 0) && r1 == callres(ConvertString, 0, 1)
+//@ func ConvertInstanceIdentifier
+//@   props C12 C20
+//@   internal the_text_is_the_value [C12]: callarg(ConvertString, 0, 0) == value && r0 == callres(ConvertString, 0, 0) && r1 == callres(ConvertString, 0, 1)
+//@ func Convert
+//@   props C12 C20
+//@   internal the_text_of_a_string_like_leaf_is_handed_on_as_it_came [C12]:
+//@            (called(ConvertString, 0) ==> callarg(ConvertString, 0, 0) == value) && (called(ConvertString, 1) ==> callarg(ConvertString, 1, 0) == value) &&
+//@            (called(ConvertUnion) ==> callarg(ConvertUnion, 0, 0) == value) && (called(ConvertLeafRef) ==> callarg(ConvertLeafRef, 0, 0) == value) &&
+//@            (called(ConvertBinary) ==> callarg(ConvertBinary, 0, 0) == value) && (called(ConvertInstanceIdentifier) ==> callarg(ConvertInstanceIdentifier, 0, 0) == value)
+//@   internal a_string_leaf_goes_to_the_string_converter [C12]: lst != nil && lst.Type == "string" ==> called(ConvertString, 0) &&
+//@            r0 == callres(ConvertString, 0, 0) && r1 == callres(ConvertString, 0, 1)
+//@   internal a_union_goes_through_its_members [C12]: lst != nil && lst.Type == "union" ==> called(ConvertUnion) && callarg(ConvertUnion, 0, 1) == lst.UnionTypes &&
+//@            r0 == callres(ConvertUnion, 0, 0) && r1 == callres(ConvertUnion, 0, 1)
